@@ -25,6 +25,8 @@ def run_atlas_cli(b, sc, workdir, flags=(), key_by="env", start=None, end=None, 
             env.update(ATLAS_PUBLIC_KEY=sc.public, ATLAS_PRIVATE_KEY=sc.private)
         elif key_by == "flags":
             args += ["--atlasPublicKey", sc.public, "--atlasPrivateKey", sc.private]
+        elif key_by == "flagseq":
+            args += ["--atlasPublicKey=" + sc.public, "--atlasPrivateKey=" + sc.private]          # the one-word form of a flag
         elif key_by == "mixed":
             args += ["--atlasPublicKey", sc.public]
             env.update(ATLAS_PRIVATE_KEY=sc.private)
